@@ -82,13 +82,16 @@ def run(rac):
         cls.run = mk(cls.run)
     try:
         quick = rac.tier == "quick"
-        alpha = [o for o in G.op_alphabet(small=True) if o[0] == "expr"]
+        alpha = [o for o in G.op_alphabet(small=True) if o[0] == "expr"] + [o for o in G.CONTAINER_OPS if o[0] == "expr"][:2]
+        # assigned locations: every observed one, plus members that NO task reads one by one (only their container is read) and a new key
+        assigned = list(G.LOCS) + [("l", 2), ("n", "w")]
         L = 3 if quick else 4
         rac.section("manager", f"managers built by every sequence of <= {L} expression definitions (of {len(alpha)}), "
+                    "(two of them reading a nested container as a whole through a function reference), "
                     "plus side-effect-only observer tasks (no targets) on every location and nested container, "
-                    "then every location assigned once (a plain value; on an expression-defined location it replaces the definition); run trace == downstream closure of the declared graph, each once, "
+                    "then every location -- and two members that no task reads one by one -- assigned once (a plain value; on an expression-defined location it replaces the definition); run trace == downstream closure of the declared graph, each once, "
                     "producers first unless the declared edge closes a cycle; non-trivial = at least one task ran",
-                    f"<= {L} definitions x {len(G.LOCS)} assigned locations")
+                    f"<= {L} definitions x {len(assigned)} assigned locations")
         for n in range(1, L + 1):
             for ops in itertools.permutations(alpha, n):
                 if rac.out_of_time(0.8):
@@ -97,7 +100,7 @@ def run(rac):
                 orc = G.Oracle()
                 if not all(G.legal(orc, o) and (orc.apply(o) or True) for o in ops):
                     continue
-                for loc in G.LOCS:
+                for loc in assigned:
                     # (a location that HAS a definition is assigned too: the value replaces the definition, whose task must not run)
                     w = G.World()
                     try:
